@@ -14,7 +14,7 @@ EXTENDS Integers, FiniteSets, Sequences, TLC
 
 Kinds == {"int64", "bigint", "float", "negzero", "inf", "nan", "str", "bytes", "none", "bool", "container", "stream"}
 Lens  == {"zero", "below", "at", "above", "big"}          \* relative to disk_min_file_size (for str/bytes/container/stream)
-Feats == {"CR", "LF", "CRLF", "NUL", "U85", "U2028", "astral", "surrogate"}
+Feats == {"CR", "LF", "CRLF", "NUL", "U85", "U2028", "astral", "surrogate", "BOM"}   \* BOM: U+FEFF as the first code point
 Thrs  == {"t0", "t1", "tsmall", "t32k"}
 Disks == {"Disk", "JSONDisk"}
 \* "...-unpickled": the value is fetched through a handle that went through pickle (another process, copy)
